@@ -67,9 +67,19 @@ def after_reconnect(ctx, prop):
         n += sum(1 for l in lines if l.startswith("> msubmit")) if any(l.startswith("> task") for l in lines) else 0
     for d in L.diff_cases(full, model):
         op = L.last_op_before(d["lines"], d["first"])
+        both = d["impl"] + " " + d["other"]
+        if prop == "C17":
+            # the name a (re)connected pool connection is authorised under
+            if " authorize " not in both or "skipped-tail" in d["header"] or "c17" in done:
+                continue
+            done.add("c17")
+            L.violation(ctx, "c17:name-presented-on-a-replaced-pool-connection",
+                        "in a session with a contract task and replaced pool connections, after %s: the pool was presented with %r, for that destination and this miner it is %r" % (op[2:], d["impl"][:160], d["other"][:160]),
+                        {"clause": "the account of the destination is kept, the worker part only where it is propagated", "case": d["header"],
+                         "ops": [l for l in d["lines"][:d["first"] + 1] if l.startswith("> ")], "how_to_replay": "bin/check C06 --replay <this file>"})
+            continue
         if not op.startswith("> msubmit") or "skipped-tail" in d["header"]:
             continue
-        both = d["impl"] + " " + d["other"]
         credit = "< cb " in both
         routing = "tominer result" in both or " submit " in both
         if (prop == "C04" and not credit) or (prop == "C02" and not routing) or prop not in ("C02", "C04"):
